@@ -53,6 +53,15 @@ pub fn run(args: &[String]) {
             let r = crate::util::slot_seeds_passing_gamma(n, count, &[0, 1, n / 2, n - 1]);
             println!("{:?} in {:?}", r, t0.elapsed());
         }
+        Some("gammascan") => {
+            let n: usize = args[1].parse().unwrap();
+            let from: u64 = args[2].parse().unwrap();
+            let count: u64 = args[3].parse().unwrap();
+            let width: f64 = args.get(4).and_then(|s| s.parse().ok()).unwrap_or(1.0);
+            let t0 = std::time::Instant::now();
+            let r = crate::util::gamma_near_miss_scan(n, from, count, width);
+            println!("{:?} in {:?}", r, t0.elapsed());
+        }
         Some("keygen-scan") => {
             // first NTRU candidate of key generation for seeds LE64(i): extreme coefficients
             use rand::SeedableRng;
